@@ -142,6 +142,13 @@ func mkC19() *Scenario {
 			func() { P1.Send(refcodec.Port(6881)) },
 			func() { w.Tor.VerifInjectDHTPeers([]*net.TCPAddr{dhtAddr}) },
 			func() { w.Advance(61 * time.Second) }, // PEX flush ticker, DHT announcer
+			// the second peer sends its extension handshake without ut_pex, and later a second one that enables it
+			func() {
+				P2.Send(refcodec.Extended(0, refcodec.ExtHandshakePayload(map[string]int{"ut_metadata": 3}, "peer2", nil, 0, 0)))
+			},
+			func() {
+				P2.Send(refcodec.Extended(0, refcodec.ExtHandshakePayload(map[string]int{"ut_pex": 5, "ut_metadata": 3}, "peer2", nil, 0, 0)))
+			},
 		}
 	}
 	sc.Actions = func(w *World) []Action {
@@ -153,7 +160,11 @@ func mkC19() *Scenario {
 		st := stimuli(w)
 		perm := c19Perms[arg.Order%len(c19Perms)]
 		if k < len(st) {
-			return []Action{{Label: fmt.Sprintf("stimulus:%d", perm[k]), Do: func(w *World) { w.Vars["stim"] = k + 1; st[perm[k]]() }}}
+			pk := k // stimuli beyond the permuted five come last, in order
+			if k < len(perm) {
+				pk = perm[k]
+			}
+			return []Action{{Label: fmt.Sprintf("stimulus:%d", pk), Do: func(w *World) { w.Vars["stim"] = k + 1; st[pk]() }}}
 		}
 		if k < len(st)+2 {
 			return []Action{{Label: "advance:61s", Do: func(w *World) { w.Vars["stim"] = k + 1; w.Advance(61 * time.Second) }}}
@@ -255,7 +266,7 @@ func c19Check(w *World, arg c19Arg, g *GenTorrent, P1, P2 *Peer, ts *HTTPTracker
 	pexFrames := 0
 	for _, p := range []*Peer{P1, P2} {
 		for _, m := range p.Inbox {
-			if m.ID == refcodec.MsgExtended && m.ExtID() == 4 && p == P1 {
+			if m.ID == refcodec.MsgExtended && ((m.ExtID() == 4 && p == P1) || (m.ExtID() == 5 && p == P2)) { // the ids they gave ut_pex
 				pexFrames++
 			}
 		}
